@@ -515,7 +515,7 @@ def run(ctx):
             ctx.check(acceptor_peer_event, ev, after)
 
     run_loopback(ctx, 5 if ctx.thorough else 1)
-    n = 20000 if ctx.thorough else 150
+    n = 20000 if ctx.thorough else 1500
 
     def fn(value):
         which, triple, pos = value
